@@ -9,7 +9,7 @@ import gc
 
 import numpy
 
-from .common import model_class, MAXSIZE, Model, RefSched, gen_flavour, gen_prio, rec_class, spec_defaults
+from .common import ambient_warnings, model_class, MAXSIZE, Model, RefSched, gen_flavour, gen_prio, rec_class, spec_defaults
 
 PROPERTY = "C02"
 QUICK_RUNS = 20000
@@ -189,6 +189,7 @@ class World:
 
 
 def execute(sc, ctx):
+    ambient_warnings(sc, ctx)
     m, twin = model_class(sc, ctx)(seed=20260927), model_class(sc)(seed=20260927)
     w, wt = World(m, sc), World(twin, sc)
     w.armed = bool(sc.get("raises"))        # the twin never fails
